@@ -79,6 +79,9 @@ def run(ctx):
             target = "any" if tg == "any" else s["ttarget"]
             lines.append("de %s %s %s slice" % (s["schema"], target, s["enc"]))
             meta.append(("valid-" + tg, "(ok %s 0)" % exp, s))
+        # the same through a buffered reader with small refills (values straddle refill boundaries)
+        lines.append("de %s %s %s (chunks %d)" % (s["schema"], rng.choice(["any", s["ttarget"]]) if False else "any", s["enc"], rng.choice([1, 1, 2, 3, 5, 7])))
+        meta.append(("valid-reader", "(ok %s 0)" % s["dany"], s))
         # followed by other data: exactly the encoding is consumed
         extra = G.rand_bytes(rng, rng.randint(1, 5))
         lines.append("de %s any %s slice" % (s["schema"], C.hx(enc + extra)))
